@@ -179,7 +179,11 @@ def map_failures(g, res):
                 if oid is None:
                     oid = f'{g.unit}::{fi.name}::safe'
         elif 'invariant' in msg:
-            clause = prim[0] if prim else None
+            # the clause is the span inside a contract region (primary for entry/end-of-body failures, secondary for `continue`/`break`)
+            clause = next((sp for sp in d['spans'] if 'failed this invariant' in sp[3]), None)
+            if clause is None:
+                clause = next((sp for sp in d['spans'] if sp[0] and g.origin[sp[0] - 1][0] == 'contract'), prim[0] if prim else None)
+            other = [sp for sp in d['spans'] if sp is not clause]
             if clause:
                 fi = fn_at(clause[0])
             if fi and clause and g.origin[clause[0] - 1][0] == 'contract':
@@ -187,7 +191,7 @@ def map_failures(g, res):
                 sect = g.origin[clause[0] - 1][2]
                 if lab:
                     oid = f'{g.unit}::{fi.name}::{sect.replace(" ", "")}:inv:{lab[1]}'
-                site = msg
+                site = g.repo_loc(other[0][0]) if other and other[0][0] else msg
             if fi and oid is None:
                 oid = f'{g.unit}::{fi.name}::safe'
         else:
